@@ -217,8 +217,21 @@ def concrete_instance(inp, k=0, fixed=None):
     vals = [1.25, 0.75, 1.5, 0.875, 1.125, 2, 0.625, 1.75, 1.375, 0.5, 1.625, 1]
     hyp = []
     fixed = fixed or {}
+    import math
+    from fractions import Fraction as _F
     for n, (nm, y) in enumerate(sorted(inp.inputs.items())):
-        hyp.append(y == (fixed[nm] if nm in fixed else vals[(n + k) % len(vals)]))
+        v = fixed[nm] if nm in fixed else vals[(n + k) % len(vals)]
+        hyp.append(y == v)
+        # the log-variable behind a pinned monomial variable is pinned too (E = 2 ln y, rational enclosure): a branch of the code
+        # on the energies themselves (allclose(E, E[0]) ...) must not be feasible against the pinned values
+        if nm.startswith('y_') and nm[2:] in ENG.logv and not isinstance(v, (Sym,)):
+            E = ENG.logv[nm[2:]][0]
+            lv = 2 * math.log(float(v))
+            if float(v) == 1.0:
+                hyp.append(core.SymBool(E == 0))
+            else:
+                lo, hi = _F(lv) - _F(1, 10 ** 12), _F(lv) + _F(1, 10 ** 12)
+                hyp.append(core.SymBool(core.z3.And(E >= core.z3.RealVal(str(lo)), E <= core.z3.RealVal(str(hi)))))
     return hyp
 
 
